@@ -9,6 +9,8 @@
 (*           the recorded relations;                                       *)
 (*  range  - a real key lies in a real prefix range iff it was built for   *)
 (*           that group;                                                   *)
+(*  handler - structurally incomplete / adversarially framed peer messages  *)
+(*           injected into the real listeners: the node survives;          *)
 (*  decode - untrusted bytes: no panic, no hang, unknown fields refused by *)
 (*           the critical decoders;                                        *)
 (*  wire   - a block message with an unknown field somewhere: if the node  *)
@@ -47,6 +49,7 @@ Good(r) ==
      [] r.e = "decode" -> ~r.panic /\ ~r.slow /\ (r.variant = "sample" => r.accepted)
                           /\ (r.critical /\ r.unknown => ~r.accepted)
      [] r.e = "wire"   -> (r.accepted => r.readBack /\ r.nextBlock) /\ (r.position = 0 => r.accepted)
+     [] r.e = "handler" -> ~r.panic /\ ~r.slow           \* a peer message injected into the real inbox listeners of a running node
      [] OTHER          -> FALSE
 
 Init == l = 1 /\ ok = TRUE /\ TLCSet(1, 0)
